@@ -4,6 +4,7 @@ set -e
 cd /repo
 for d in /verif/fixes/*.diff; do
   m="${d%.diff}.msg"
+  if grep -qi "NOTE for the integrator\|cannot be committed" "$m"; then echo "HOLD (flagged by its author, review first): $(basename $d)"; continue; fi
   if git apply --check "$d" 2>/dev/null; then
     git apply "$d"
     git add -A
